@@ -141,3 +141,40 @@ def batch_read(rng, ts, fmt="export"):
     except Exception:
         pass
     return None
+
+
+PRE = {
+    "add_topnode": lambda t: transform.add_topnode(t),
+    "binarize": _heads_binarize,
+    "split+raise": _heads_split_raise,
+    "collapse+uncollapse": lambda t: transform.uncollapse_unary_chains(transform.collapse_unary_chains(t)),
+    "punctuation_root": lambda t: transform.punctuation_root(t),
+    "root_attach": lambda t: transform.root_attach(t),
+    "punctuation_verylow": lambda t: transform.punctuation_verylow(t),
+}
+
+
+def pretransformed(rng, tree, allowed=None, p_reader=0.3):
+    """'any well-formed tree' includes the trees other transformations (and the readers) have produced: returns
+    (tree, past).  The caller takes the encoding of the result as the input of its case."""
+    past = []
+    sid = tree.data.get('sid') or 1
+    tree.data['sid'] = sid
+    if rng.random() < p_reader:
+        tree, src = via_reader(rng, tree, "export")
+        past.append("read:" + src)
+    names = [n for n in PRE if allowed is None or n in allowed]
+    for name in rng.sample(names, min(len(names), rng.randint(1, 2))):
+        try:
+            with quiet():
+                r = PRE[name](tree)
+        except Exception:
+            past.append(name + ":refused")
+            continue
+        if r is None:
+            continue
+        if r.data.get('sid') is None:
+            r.data['sid'] = sid
+        tree = r
+        past.append(name)
+    return tree, past
